@@ -40,7 +40,7 @@ m = {
     },
     "engines": [
         {"name": "octacheck", "path": "/verif/octacheck", "serves_properties": [c["property_id"] for c in checks],
-         "kind_free_text": "repository-specific static analysis in pure Python (ast): source model with constant folding, callee resolution and call graph, statement-level CFG with exception edges, dominators / must-pass-through / control dependence, effect classification, regex-to-automata inclusion checks; decides structural necessary conditions of each property on /repo's current source, never runs repository code"},
+         "kind_free_text": "repository-specific static analysis in pure Python (ast): source model with constant folding, callee resolution and call graph, statement-level CFG with exception edges, dominators / must-pass-through / control dependence, effect classification, regex-to-automata inclusion checks; path-sensitive abstract interpreters (envelope typestate, token-type sets, exception escape); and a normalising front end applied to its own parsed copy only (helpers introduced after the pinned tree are read in place, `match` is read as its if/elif chain, new record classes as their fields / tuples, consumed generator helpers as their loops, locals read by name get their expected names) so that behaviour-preserving refactorings do not change what the rules see; decides structural necessary conditions of each property on /repo's current source, never runs repository code"},
     ],
     "checks": checks,
     "notes": md.NOTES,
